@@ -161,24 +161,57 @@ OpReopen(st) ==
            !.tblId = (IF ids = {} THEN 0 ELSE Max(ids)) + 1,
            !.snaps = {}])
 
+\* OwnedBounds::contains on a table's key range.  Bounds use doubled keys:
+\* 2k is key k, 2k+1 a point strictly between k and k+1 (LsmCore!InBounds2)
+BoundsContain(b, tb) ==
+    /\ CASE b.lo[1] = "U" -> TRUE [] b.lo[1] = "I" -> b.lo[2] <= 2 * TMinKey(tb)
+          [] b.lo[1] = "E" -> b.lo[2] < 2 * TMinKey(tb)
+    /\ CASE b.hi[1] = "U" -> TRUE [] b.hi[1] = "I" -> b.hi[2] >= 2 * TMaxKey(tb)
+          [] b.hi[1] = "E" -> b.hi[2] > 2 * TMaxKey(tb)
+
+\* Tree::drop_range returns early only when both bounds are keys and lo > hi
+DropRangeNoop(b) == b.lo[1] # "U" /\ b.hi[1] # "U" /\ b.lo[2] > b.hi[2]
+
+DropRangeIds(st, b) ==
+    {t \in AllIds(Latest(st).lv) : BoundsContain(b, st.tbl[t])}
+
+OpDropRange(st, b) ==
+    IF DropRangeNoop(b) THEN st ELSE OpDrop(st, DropRangeIds(st, b), 0)
+
+\* Ingestion::new allocates the writer's table id; finish(): rotate, flush(0), then the
+\* global seqno g = seq.next() stamps the ingested table and the version that adds it
+\*   batch: Seq of [k, t, v] in strictly ascending key order, non-empty
+OpIngest(st, batch) ==
+    LET id  == st.tblId
+        s0  == [st EXCEPT !.tblId = id + 1]
+        s1  == OpFlush(OpRotate(s0), 0)
+        g   == s1.seq
+        sv  == Latest(s1)
+        ents == [j \in 1..Len(batch) |-> [k |-> batch[j].k, s |-> 0, t |-> batch[j].t, v |-> batch[j].v]]
+        T2  == s1.tbl @@ (id :> [e |-> ents, g |-> g])
+        nsv == [sv EXCEPT !.lv = WithNewL0Run(sv.lv, <<id>>, T2)]
+        s2  == [s1 EXCEPT !.tbl = T2, !.seq = g + 1]
+    IN Collect(Install(s2, nsv, g))
+
 OpOpenSnap(st)       == [st EXCEPT !.snaps = @ \cup {st.vis}]
 OpReleaseSnap(st, S) == [st EXCEPT !.snaps = @ \ {S}]
 
 -----------------------------------------------------------------------------
 (* Reads against a state.                                                  *)
 (***************************************************************************)
-\* value `get(k, S)` returns (NoVal = absent); "PANIC" if no super version resolves
+\* value `get(k, S)` returns (NoVal = absent); Panic (-1) if no super version resolves
+Panic == 0 - 1
 ReadAt(st, k, S) ==
     LET i == SvIndexFor(st.hist, S)
-    IN IF i = 0 THEN "PANIC" ELSE UserGet(st.hist[i], st.mem, st.tbl, k, S)
+    IN IF i = 0 THEN Panic ELSE UserGet(st.hist[i], st.mem, st.tbl, k, S)
 
 InternalAt(st, k, S) ==
     LET i == SvIndexFor(st.hist, S)
-    IN IF i = 0 THEN "PANIC" ELSE InternalGet(st.hist[i], st.mem, st.tbl, k, S)
+    IN IF i = 0 THEN None ELSE InternalGet(st.hist[i], st.mem, st.tbl, k, S)
 
 ScanAt(st, S, b) ==
     LET i == SvIndexFor(st.hist, S)
-    IN IF i = 0 THEN "PANIC" ELSE ScanOf(SvEntries(st.hist[i], st.mem, st.tbl), S, b)
+    IN IF i = 0 THEN << <<Panic, Panic>> >> ELSE ScanOf(SvEntries(st.hist[i], st.mem, st.tbl), S, b)
 
 FullBounds == [lo |-> <<"U", 0>>, hi |-> <<"U", 0>>]
 
